@@ -352,7 +352,7 @@ Proof.
   rewrite dd_fold_counts. destruct (items_memo H o xs m) as [hs m1]. cbn [fst snd].
   f_equal. f_equal. unfold seq_result, arrange, self_ignore_repetition, self_ignore_iterable_order. fold o.
   unfold py_join, py_sorted, dd_keys, dd_items.
-  destruct (ignore_repetition o), (ignore_iterable_order o); cbv beta iota zeta;
+  destruct (ignore_repetition o), (ignore_iterable_order o); cbv beta iota zeta delta [negb];
     rewrite ?map_py_str_OText, !map_str_idem, ?embc_keys, ?embc_items, ?counts_fst; reflexivity.
 Qed.
 
